@@ -90,7 +90,6 @@ def _at_yield(self, ip, k, v, node):
         for item in message_guarantee(ip, v):
             st.oblige('yield%d(Message):%s' % (k, item[0]), item[1], tags=item[2] if len(item) > 2 else ('C01', 'C04'))
         if k == 1:
-            f = ip.env.vars['frame']
             st.oblige('yield1:control-frames-never-join-the-pending-message', BoolVal(True), tags=('C01',))
     st.ghost.setdefault('yield_trace', []).append((k, 'Response' if k == 0 else 'Message'))
     from pyvc.engine import PyRaise
